@@ -104,3 +104,13 @@ M("c02-vectorial", "C02", CCF, "            - 2.0 * self.electric_charge[pid] * 
 M("c02-ckm-call", "C02", CCF, "        if pid % 2 == 0:\n            return self[pid]\n        return self[:, pid]", "        if pid % 2 == 1:\n            return self[pid]\n        return self[:, pid]", expect="C02.ckm")
 B("c02-zz-expanded", "C02", CCF, "                    projectile_v**2\n                    + projectile_a**2\n                    + 2.0 * pol * projectile_v * projectile_a", "                    (projectile_v + pol * projectile_a) ** 2\n                    + (1.0 - pol**2) * projectile_a**2")
 B("c02-hoist-eta", "C02", CCF, "        eta_phZ /= 1 - self.obs_config[\"propagatorCorrection\"]", "        corr = 1 - self.obs_config[\"propagatorCorrection\"]\n        eta_phZ = eta_phZ / corr")
+
+# ----------------------------------------------------------------------------- C13
+M("c13-pol-flip-both", "C13", CCF, "        if (projectile_pid % 2 == 1 and projectile_pid > 0) or (\n            projectile_pid % 2 == 0 and projectile_pid < 0\n        ):", "        if projectile_pid % 2 == 1 or (\n            projectile_pid % 2 == 0 and projectile_pid < 0\n        ):", expect="C13.pol")
+M("c13-gluon-sign", "C13", CFD + "kernels.py", "    if rest == 0 and is_pv:\n        tot_ch_sq *= -1\n", "", expect="C13.cc")
+M("c13-odd-pv-sign", "C13", CFD + "kernels.py", "            weights[\"ns\"][sign * q] = w / 2 * (1 if not is_pv else sign)\n            weights[\"ns\"][-sign * q] = -w / 2 * (1 if not is_pv else sign)", "            weights[\"ns\"][sign * q] = w / 2\n            weights[\"ns\"][-sign * q] = -w / 2 * (1 if not is_pv else sign)", expect="C13.cc")
+M("c13-z-without-propagator", "C13", CCF, "            return w_phph + w_phZ + w_ZZ\n        raise ValueError(f\"Unknown process: {self.obs_config['process']}\")\n\n    def get_fl11_weight", "            return w_phph + w_phZ + w_ZZ + 0.01 * self.partonic_coupling(\"ZZ\", pid, quark_coupling_type)\n        raise ValueError(f\"Unknown process: {self.obs_config['process']}\")\n\n    def get_fl11_weight", expect="C13.em")
+M("c13-skip-last-quark", "C13", CFD + "light/kernels.py", "        if skip_heavylight and q == nf:\n            continue\n        if is_pv:", "        if q == nf:\n            continue\n        if is_pv:", expect="C13.flavour")
+M("c13-eta-constant", "C13", CCF, "        eta_phZ = (Q2 / (self.theory_config[\"MZ2\"] + Q2)) / (", "        eta_phZ = (1.0 / (self.theory_config[\"MZ2\"] + 1.0)) / (", expect="C13.em")
+M("c13-projectile-sign-nc", "C13", CCF, "                return self.electric_charge[abs(projectile_pid)] * (\n                    projectile_v + pol * projectile_a\n                )", "                return np.sign(projectile_pid) * self.electric_charge[abs(projectile_pid)] * (\n                    projectile_v + pol * projectile_a\n                )", expect="C13.pol")
+B("c13-rename-rest", "C13", CFD + "kernels.py", "    if rest == 0 and is_pv:\n        tot_ch_sq *= -1\n", "    if is_pv and not rest:\n        tot_ch_sq = -tot_ch_sq\n")
